@@ -1,0 +1,13 @@
+//go:build verif && linux
+
+package ztp
+
+import "github.com/insomniacslk/dhcp/dhcpv4"
+
+// Verification seams (build tag "verif" only; add-only, no behaviour of their own).
+
+// VerifParseVendorOptions hands the value of DHCP option 43 to the vendor sub-option parser.
+func VerifParseVendorOptions(data []byte) string { return parseVendorOptions(data) }
+
+// VerifExtractNexusURL runs the Nexus URL extraction on a received DHCP ACK exactly as Discover does.
+func VerifExtractNexusURL(ack *dhcpv4.DHCPv4) string { return extractNexusURL(ack) }
